@@ -121,6 +121,15 @@ def run(ctx, scratch):
                 kind = cases.pick_kind(rng, d)
                 weighted = rng.random() < 0.6
                 spec, nr, nc, fam = cases.make_matrix(rng, kind, nmax, weighted=weighted)
+                if rep == 1 and kind in ('sq', 'sym') and nr == nc:
+                    # once per entry point: an UNWEIGHTED graph with a self-loop (where bool, int and float entries of equal value
+                    # part ways in code that adds or counts entries, e.g. add_self_loops: seed C01_7) - not left to the random stream
+                    coo = [[e[0], e[1], 1] for e in spec['coo']]
+                    if not any(e[0] == e[1] for e in coo):
+                        coo.append([0, 0, 1])
+                    spec = dict(spec, coo=sorted(coo), dtype='int')
+                    fam += '+unit_loop'
+                    weighted = False
                 opts = cases.make_opts(rng, d, nr, nc, kind == 'bip')
                 if d['seeded']:
                     opts.setdefault('params', {})['random_state'] = 7
